@@ -267,7 +267,7 @@ Proof.
 Qed.
 
 (* B.2 what acceptance means in general: ONE factor p (read off on the gate's own qubits) for which the register
-   matrices agree entrywise within np.allclose's tolerance *)
+   matrices agree entrywise within the tolerance of np.allclose(..., atol=ATOL): ATOL + 1e-5 |p B_rc|, ATOL = 1e-7 *)
 Theorem check_sound_lifts n (g : gate R) repl MA :
   check_replacement RNum g repl = Ok tt ->
   get_matrix RNum n (renorm_gate RNum g) = Ok MA ->
@@ -275,7 +275,7 @@ Theorem check_sound_lifts n (g : gate R) repl MA :
     gates_matrix RNum n (map (renorm_gate RNum) repl) = Ok MB /\
     forall r c, r < zpow2 n -> c < zpow2 n ->
       (Cabs (csub RNum (mget RNum MA r c) (cmul RNum p (mget RNum MB r c)))
-       <= 1 / 100000000 + 1 / 100000 * Cabs (cmul RNum p (mget RNum MB r c)))%R.
+       <= CheckP.ATOL + 1 / 100000 * Cabs (cmul RNum p (mget RNum MB r c)))%R.
 Proof.
   intros Hck HMA. destruct (check_sound g repl Hck) as [_ [A0 [B0 [p [i [j H]]]]]]. cbv zeta in H.
   destruct H as [HA0 [HB0 [_ [_ [_ [_ [_ [_ [_ [_ [_ Hent]]]]]]]]]]].
@@ -285,7 +285,7 @@ Proof.
   destruct (agreeb (map Z.to_N (gate_qubits g)) (N.of_nat r) (N.of_nat c)).
   - apply Hent; apply pack_lt.
   - rewrite cmulR_0_r, Cabs_sub_self.
-    pose proof (Cabs_nonneg (czero RNum)). lra.
+    pose proof (Cabs_nonneg (czero RNum)). pose proof CheckP.ATOL_pos. lra.
 Qed.
 
 (* gates whose rotation angles are already normalised, as every gate built by the constructors is *)
